@@ -149,20 +149,13 @@ func (c *MemoryCache[MetadataT]) Get(key CacheKey) (*Entry[MetadataT], error) {
 	}, nil
 }
 
-func (c *MemoryCache[MetadataT]) cacheInternal(key CacheKey, dataBytes []byte, expires time.Time, metadata MetadataT, evictIfFull bool) (*Entry[MetadataT], error) {
-	maxCacheSize := c.maxCacheSize.Get()
-	limit := min(maxCacheSize, c.memoryCap.Get())
+// The size the memory cache may grow to: the configured maximum, capped by the memory budget.
+func (c *MemoryCache[MetadataT]) limit() int64 {
+	return min(c.maxCacheSize.Get(), c.memoryCap.Get())
+}
 
-	if c.byteSize.Get() >= limit {
-		if evictIfFull {
-			c.janitor.evict(limit)
-			entry, err := c.cacheInternal(key, dataBytes, expires, metadata, false)
-			if err != nil {
-				return nil, err
-			}
-			return entry, nil
-		}
-
+func (c *MemoryCache[MetadataT]) cacheInternal(key CacheKey, dataBytes []byte, expires time.Time, metadata MetadataT) (*Entry[MetadataT], error) {
+	if c.byteSize.Get() >= c.limit() {
 		metrics.Global.Cache.CacheErrors.Increment()
 		return nil, ErrCacheMemoryExceeded
 	}
@@ -211,11 +204,18 @@ func (c *MemoryCache[MetadataT]) Cache(key CacheKey, data io.Reader, expires tim
 		return nil, err
 	}
 
+	// Room is made before the key's lock is taken as well: the eviction only try-locks its candidates, and with
+	// this key's shard locked by ourselves it would have to skip every entry of the shard, the least recently
+	// used one included (with a single shard it could evict nothing at all).
+	if limit := c.limit(); c.byteSize.Get() >= limit {
+		c.janitor.evict(limit)
+	}
+
 	lock := getLock(c.locks, key)
 	lock.Lock()
 	defer lock.Unlock()
 
-	return c.cacheInternal(key, buf.Bytes(), expires, metadata, true)
+	return c.cacheInternal(key, buf.Bytes(), expires, metadata)
 }
 
 func (c *MemoryCache[MetadataT]) Delete(key CacheKey) error {
